@@ -125,6 +125,7 @@ func hashStr(s string) uint64 {
 // ---------------------------------------------------------------------------
 
 type jobOutcome struct {
+	stderr    string
 	results   []proto.RunResult
 	crashed   *proto.RunSpec // the run during which the process died
 	crashText string
@@ -132,6 +133,7 @@ type jobOutcome struct {
 	watchdog  bool
 }
 
+var keepStderr bool // race mode: the detector's reports are on the worker's stderr
 var jobSeq int
 var jobSeqMu sync.Mutex
 
@@ -151,7 +153,10 @@ func runJob(bin string, specs []proto.RunSpec, timeout time.Duration, extraEnv .
 		os.Remove(base + ".stderr")
 	}()
 	cmd := exec.Command(bin, "-test.run", "^TestWorker$", "-test.timeout", "0")
-	cmd.Env = append(os.Environ(), "VERIF_JOB="+base+".json", "GOTRACEBACK=all")
+	cmd.Env = append(os.Environ(), "VERIF_JOB="+base+".json", "GOTRACEBACK=all", "GORACE=halt_on_error=0 exitcode=0 history_size=5")
+	if keepStderr {
+		cmd.Env = append(cmd.Env, "GOMAXPROCS=16")
+	}
 	cmd.Env = append(cmd.Env, extraEnv...)
 	cmd.Dir = workDir
 	errf, _ := os.Create(base + ".stderr")
@@ -171,6 +176,11 @@ func runJob(bin string, specs []proto.RunSpec, timeout time.Duration, extraEnv .
 		oc.watchdog = true
 	}
 	errf.Close()
+	if keepStderr {
+		if st, err := os.ReadFile(base + ".stderr"); err == nil {
+			oc.stderr = string(st)
+		}
+	}
 	// results
 	if f, err := os.Open(job.Out); err == nil {
 		sc := bufio.NewScanner(f)
@@ -274,10 +284,103 @@ func crashSignature(text string) (sig, detail string) {
 	return m + "@" + frame, strings.Join(lines[idx:end], " | ")
 }
 
+// raceReport is one report of the Go race detector.
+type raceReport struct {
+	sig   string
+	text  string
+	inLib bool
+}
+
+// parseRaces extracts the detector's reports from a worker's stderr and reduces
+// each to the pair of first library frames of its two stacks.
+func parseRaces(stderr string) []raceReport {
+	var out []raceReport
+	blocks := strings.Split(stderr, "WARNING: DATA RACE")
+	for _, b := range blocks[1:] {
+		if i := strings.Index(b, "=================="); i >= 0 {
+			b = b[:i]
+		}
+		// the two access stacks come first; goroutine creation stacks follow
+		acc := b
+		if i := strings.Index(acc, "\nGoroutine "); i >= 0 {
+			acc = acc[:i]
+		}
+		var stacks [][]string
+		var cur []string
+		for _, l := range strings.Split(acc, "\n") {
+			switch {
+			case strings.HasPrefix(l, "Read at") || strings.HasPrefix(l, "Write at") || strings.HasPrefix(l, "Previous") || strings.HasPrefix(l, "Atomic"):
+				if cur != nil {
+					stacks = append(stacks, cur)
+				}
+				cur = []string{}
+			case strings.HasPrefix(l, "  ") && !strings.HasPrefix(l, "      "):
+				cur = append(cur, strings.TrimSpace(l))
+			}
+		}
+		if cur != nil {
+			stacks = append(stacks, cur)
+		}
+		var tops []string
+		inLib := false
+		for _, st := range stacks {
+			top := ""
+			for _, f := range st {
+				if strings.Contains(f, "xtaci/kcp-go") {
+					top = f
+					inLib = true
+					break
+				}
+			}
+			if top == "" && len(st) > 0 {
+				top = st[0]
+			}
+			top = strings.TrimPrefix(top, "github.com/xtaci/kcp-go/v5.")
+			if i := strings.Index(top, "()"); i > 0 {
+				top = top[:i]
+			}
+			tops = append(tops, top)
+		}
+		sort.Strings(tops)
+		out = append(out, raceReport{sig: strings.Join(tops, "|"), text: tail(b, 60), inLib: inLib})
+	}
+	return out
+}
+
+func attachRaces(r *proto.RunResult, stderr string) {
+	reps := parseRaces(stderr)
+	if len(reps) == 0 {
+		return
+	}
+	// one violation per run: the first library race (the others are listed in the detail)
+	sigs := map[string]int{}
+	var first *raceReport
+	for i := range reps {
+		if reps[i].inLib {
+			sigs[reps[i].sig]++
+			if first == nil {
+				first = &reps[i]
+			}
+		}
+	}
+	if first == nil {
+		r.Harness = "data race inside the harness: " + reps[0].sig + "\n" + reps[0].text
+		return
+	}
+	var all []string
+	for k, n := range sigs {
+		all = append(all, fmt.Sprintf("%s x%d", k, n))
+	}
+	sort.Strings(all)
+	r.Viol = &proto.Violation{Prop: r.Prop, Oracle: "race-detector", Sig: r.Prop + "/race/" + first.sig,
+		Detail: fmt.Sprintf("%d report(s) of the Go race detector in this run: %s\n%s", len(reps), strings.Join(all, "; "), first.text)}
+}
+
 // crashProps are the properties whose statement a process crash violates.
 var crashProps = map[string]bool{"C02": true, "C05": true, "C10": true}
 
 type pool struct {
+	race          bool
 	bin           string
 	mu            sync.Mutex
 	queue         [][]proto.RunSpec
@@ -315,7 +418,21 @@ func (p *pool) run() {
 				to := p.perRunTimeout*time.Duration(len(specs)) + 30*time.Second
 				oc := runJob(p.bin, specs, to)
 				p.mu.Lock()
+				if p.race && len(specs) == 1 && len(oc.results) == 1 {
+					attachRaces(&oc.results[0], oc.stderr)
+				}
 				p.results = append(p.results, oc.results...)
+				if p.race && oc.crashed != nil && !oc.watchdog && len(parseRaces(oc.crashText)) > 0 {
+					// When the detector has reported a race, the testing package fails the
+					// bubble's test and with it the worker's only test function: the
+					// process ends inside the run. That is a completed run with a report,
+					// not a crash.
+					sp := oc.crashed
+					rr := proto.RunResult{Prop: sp.Prop, Scenario: sp.Scenario, Stratum: sp.Stratum, Seed: sp.Seed, Progress: true}
+					attachRaces(&rr, oc.crashText)
+					p.results = append(p.results, rr)
+					oc.crashed = nil
+				}
 				if oc.crashed != nil {
 					if oc.watchdog {
 						p.watchdogs = append(p.watchdogs, fmt.Sprintf("%s/%s seed=%d", oc.crashed.Scenario, oc.crashed.Stratum, oc.crashed.Seed))
@@ -803,7 +920,11 @@ func doCheck(prop, tier string) int {
 	}
 	// interleave strata so that a wall-clock cap cuts all of them evenly
 	sort.SliceStable(specs, func(i, j int) bool { return splitmix(specs[i].Seed) < splitmix(specs[j].Seed) })
-	p := &pool{bin: bin, perRunTimeout: plan.PerRunTimeout}
+	p := &pool{bin: bin, perRunTimeout: plan.PerRunTimeout, race: plan.Race}
+	keepStderr = plan.Race
+	if plan.Race {
+		perJob = 1 // one run per process, so that every report belongs to its run
+	}
 	if p.perRunTimeout == 0 {
 		p.perRunTimeout = 60 * time.Second
 	}
@@ -957,6 +1078,21 @@ func doCheck(prop, tier string) int {
 				}
 			}
 			rf.Tape, rf.LogHash, rf.Log, rf.Detail, rf.Config = tapeRec, res.LogHash, res.Log, res.Viol.Detail, res.Config
+		} else if plan.Race {
+			// race mode: the seed fixes the workload, not the interleaving; measure how
+			// often the same report comes back
+			again := 0
+			const tries = 5
+			for k := 0; k < tries; k++ {
+				oc := runJob(bin, []proto.RunSpec{{Prop: prop, Scenario: v.Scenario, Stratum: v.Stratum, Seed: v.Seed, Tier: tier}}, 10*time.Minute)
+				for _, rr := range parseRaces(oc.stderr) {
+					if prop+"/race/"+rr.sig == v.Viol.Sig {
+						again++
+						break
+					}
+				}
+			}
+			rf.Detail = fmt.Sprintf("%s\n[re-running the same seed reproduced this report in %d of %d runs]", v.Viol.Detail, again, tries)
 		} else {
 			// crash: confirm that the seed crashes again the same way
 			sp := proto.RunSpec{Prop: prop, Scenario: v.Scenario, Stratum: v.Stratum, Seed: v.Seed, Tier: tier}
